@@ -805,6 +805,10 @@ func c04ConfigCorpus() []*c04Case {
 	schema := []byte(`{"$schema":"http://json-schema.org/draft-07/schema#","definitions":{"Foo":{"type":"object","properties":{"a":{"type":"string"},"b":{"type":"boolean"}},"required":["a"]},"K":{"type":"string","const":"k"}},"type":"object","properties":{"foo":{"$ref":"#/definitions/Foo"},"k":{"$ref":"#/definitions/K"}}}`)
 	input := `inputs: [{jsonschema: {path: '%__config_dir%/in/schema.json', package: corpus}}]`
 	out := `output: {directory: 'out/%l', types: true, builders: true, converters: true, languages: [{go: {package_root: example.com/lab}}, {python: {}}, {typescript: {}}, {java: {}}, {php: {}}]}`
+	// single-language outputs: the languages of one run are processed concurrently, so a case that ends differently
+	// in two languages has no stable outcome
+	outGo := `output: {directory: 'out/%l', types: true, builders: true, converters: true, languages: [{go: {package_root: example.com/lab}}]}`
+	outTS := `output: {directory: 'out/%l', types: true, builders: true, converters: true, languages: [{typescript: {}}]}`
 	mk := func(name, cog, passes, veneers string) *c04Case {
 		c := &c04Case{ID: "corpus-config/" + name, Kind: "run", Config: "cog.yaml", Note: "pinned-config=" + name, Files: map[string][]byte{"in/schema.json": schema, "cog.yaml": []byte(cog)}}
 		if passes != "" {
@@ -827,6 +831,7 @@ func c04ConfigCorpus() []*c04Case {
 		mk("passes-null-element", input+"\n"+out+"\n"+tr+"\n", "passes: [~]", vOK),
 		mk("veneers-null-rule", input+"\n"+out+"\n"+tr+"\n", "passes: []", vOK+"builders: [~]\noptions: [~]\n"),
 		mk("retype-object-nil-struct", input+"\n"+out+"\n"+tr+"\n", "passes: [{retype_object: {object: corpus.Foo, as: {kind: struct}}}]", vOK),
+		mk("retype-object-nil-array", input+"\n"+out+"\n"+tr+"\n", "passes: [{retype_object: {object: corpus.Foo, as: {kind: array}}}]", vOK),
 		mk("retype-field-nil-array", input+"\n"+out+"\n"+tr+"\n", "passes: [{retype_field: {field: corpus.Foo.a, as: {kind: array}}}]", vOK),
 		mk("add-object-empty-kind", input+"\n"+out+"\n"+tr+"\n", "passes: [{add_object: {object: corpus.New, as: {}}}]", vOK),
 		mk("retype-then-hint", input+"\n"+out+"\n"+tr+"\n", "passes: [{retype_object: {object: corpus.Foo, as: {kind: scalar, scalar: {scalar_kind: string}}}}, {hint_object: {object: corpus.Foo, hints: {kind: x}}}]", vOK),
@@ -835,6 +840,10 @@ func c04ConfigCorpus() []*c04Case {
 		mk("constant-to-enum-non-string", input+"\n"+out+"\n"+tr+"\n", "passes: [{retype_object: {object: corpus.K, as: {kind: scalar, scalar: {scalar_kind: string, value: 1}}}}, {constant_to_enum: {objects: [corpus.K]}}]", vOK),
 		mk("enum-member-without-type", input+"\n"+out+"\n"+tr+"\n", "passes: [{add_object: {object: corpus.E, as: {kind: enum, enum: {values: [{name: a, value: a}]}}}}]", vOK),
 		mk("enum-empty-member-name", input+"\n"+out+"\n"+tr+"\n", "passes: [{add_object: {object: corpus.E, as: {kind: enum, enum: {values: [{name: '', value: 1, type: {kind: scalar, scalar: {scalar_kind: int64}}}]}}}}]", vOK),
+		mk("enum-empty-values", input+"\n"+outGo+"\n"+tr+"\n", "passes: [{add_object: {object: corpus.E, as: {kind: enum, enum: {values: []}}}}]", vOK),
+		mk("union-null-null", input+"\n"+out+"\n"+tr+"\n", "passes: [{add_fields: {to: corpus.Foo, fields: [{name: nn, required: true, type: {kind: disjunction, disjunction: {branches: [{kind: scalar, scalar: {scalar_kind: 'null'}}, {kind: scalar, scalar: {scalar_kind: 'null'}}]}}}]}}]", vOK),
+		mk("union-empty", input+"\n"+outGo+"\n"+tr+"\n", "passes: [{add_fields: {to: corpus.Foo, fields: [{name: eu, required: true, type: {kind: disjunction, disjunction: {branches: []}}}]}}]", vOK),
+		mk("union-empty-typescript", input+"\n"+outTS+"\n"+tr+"\n", "passes: [{add_fields: {to: corpus.Foo, fields: [{name: eu, required: true, type: {kind: disjunction, disjunction: {branches: []}}}]}}]", vOK),
 		mk("fields-set-default-wrong-shape", input+"\n"+out+"\n"+tr+"\n", "passes: [{fields_set_default: {defaults: {corpus.Foo.a: [1, {x: ~}], corpus.Foo.b: {k: v}}}}]", vOK),
 		mk("constraint-without-args", input+"\n"+out+"\n"+tr+"\n", "passes: [{retype_field: {field: corpus.Foo.a, as: {kind: scalar, scalar: {scalar_kind: string, constraints: [{op: minLength}]}}}}]", vOK),
 		mk("unfold-boolean-on-added-option", input+"\n"+out+"\n"+tr+"\n", "passes: []", vOK+"builders: [{add_option: {by_object: Foo, option: {name: flag, arguments: [{name: v, type: {kind: scalar, scalar: {scalar_kind: bool}}}]}}}]\noptions: [{unfold_boolean: {by_name: Foo.flag, true_as: on, false_as: off}}]\n"),
